@@ -354,7 +354,7 @@ func c27Ops() []c27Op {
 }
 
 func TestVerifC27(t *testing.T) {
-	c27Run(t, "C27-table-opseq", false, mc.EnvInt("VERIF_C27_DEPTH", mc.Pick(5, 6)))
+	c27Run(t, "C27-table-opseq", false, mc.EnvInt("VERIF_C27_DEPTH", mc.Pick(5, 7)))
 }
 
 // the same exploration, shallower, on the real leveldb state store
